@@ -98,4 +98,7 @@ MUTANTS = [
                     yield cp.text("")
                     yield prefix
                     yield from self._gen_ch_chunks_for_obj(cp, item, offset+2)""")]},
+    {"id": "c11-float-rounded", "expect": "fire", "edits": [(P, "        elif isinstance(value, Number):\n            return cp.number(str(value))", "        elif isinstance(value, Number):\n            if isinstance(value, float):\n                value = round(value, 15)\n            return cp.number(str(value))")]},
+    {"id": "c11-float-formatted", "expect": "fire", "edits": [(P, "            return cp.number(str(value))", "            return cp.number(f'{value:g}' if isinstance(value, float) else str(value))")]},
+    {"id": "c11-n-number-repr", "expect": "silent", "edits": [(P, "            return cp.number(str(value))", "            return cp.number(repr(value))")]},
 ]
